@@ -205,6 +205,9 @@ class Program:
                 tree = ast.parse(src, filename=str(path))
             except SyntaxError as err:
                 raise AnalysisError(f"syntax error in {rel}: {err}") from err
+            from . import canon
+
+            canon.canonicalise(tree, rel)  # behaviour-preserving normal form (polarity of if/else, names of locals)
             parts = list(path.relative_to(self.root).with_suffix("").parts)
             is_pkg = parts[-1] == "__init__"
             if is_pkg:
